@@ -25,14 +25,14 @@ CHECKS = {
             TRUST_CRDT + " The document reference derives container identities for the root, the top node of a put value and array elements only; the generator keeps object values flat accordingly.",
             "DESIGN.md §4 C02"),
     "C03": ("exploration", "runtime monitoring: lock-step comparison of one replica with the plain data structure after every call, valid and invalid arguments",
-            "Every call's error-ness, return value, readable state, size and pending-operation count are compared with an executable plain-structure model after each call of seeded sequences that mix valid calls, each listed class of invalid call, reads, transactions and calls on deleted child documents; panics are caught with the call as witness.",
+            "Every call's error-ness, return value, readable state, size and pending-operation count are compared with an executable plain-structure model after each call of seeded sequences that mix valid calls, each listed class of invalid call, reads, committed and aborted transactions (an aborted one must leave view, reads and pending operations as before) and calls on deleted child documents; panics are caught with the call as witness.",
             TRUST_CRDT + " Calls the statement does not classify (remove of a missing key, zero-value insert, empty document key) may error or be a no-op.",
             "DESIGN.md §4 C03"),
     "C04": ("exploration", "runtime monitoring: per-step sequence observer with unique tags (no duplicate / lost / resurrected element, insert-at-index, global pairwise order relation never contradicted)",
-            "After every step of every seeded history the touched replica's whole sequence is read; membership is checked against the operations that replica has applied, and a global before-relation over element identities must never be contradicted on any replica at any moment (not only at quiescence).",
+            "After every step of every seeded history the touched replica's whole sequence is read; membership is checked against the operations that replica has applied, and a global before-relation over element identities must never be contradicted on any replica at any moment (not only at quiescence); histories contain committed and aborted transactions, so replicas also hold state restored from their own snapshot export.",
             TRUST_CRDT, "DESIGN.md §4 C04"),
     "C09": ("exploration", "runtime monitoring: before/after state comparison around failing transactions, same-identity twin, unit structure check, malformed-unit delivery with panic/hang watchdog",
-            "Failing transactions (random bodies) are bracketed by full state observations (view, reads, meta, pending operations); a twin with the same identity that skips them must stay equal, also in the operations emitted afterwards; committed units are checked for header count and contiguity; truncated / mis-counted units are delivered to fresh replicas and must change nothing, not panic, not hang.",
+            "Failing transactions (random bodies) are bracketed by full state observations (view, reads, meta, pending operations); a twin with the same identity that skips them must stay equal, also in the operations emitted afterwards; committed units are checked for header count and contiguity; a failing transaction nested on a child handle inside a transaction body must leave nothing readable or pending; truncated / mis-counted units are delivered to fresh replicas and must change nothing, not panic, not hang.",
             TRUST_CRDT + " Hang = delivery goroutine still inside ReceiveRemoteModelOperations on three stack samples.",
             "DESIGN.md §4 C09"),
     "C10": ("exploration", "runtime monitoring: original vs restored-from-snapshot instance under a shared continuation; canonical snapshot comparison",
@@ -40,7 +40,7 @@ CHECKS = {
             TRUST_CRDT + " Import = SetMetaAndSnapshot + ResetTransaction as the SDK's init does.",
             "DESIGN.md §4 C10"),
     "C14": ("exploration", "runtime monitoring: codec-chain round trip (proto, BSON document, decode, re-encode, echo service) with same-effect oracle on replicas",
-            "Operations produced by real datatypes from Go-native values of every shape go through every encoding stage; ids, types and JSON bodies must survive, the echo service must return an equivalent operation, and replicas fed with decoded operations must equal the issuing replica.",
+            "Operations produced by real datatypes from Go-native values of every shape go through every encoding stage; ids, types and JSON bodies must survive, the echo service must return an equivalent operation, and replicas fed with decoded operations must equal the issuing replica; a fifth of the histories run at a non-zero era.",
             TRUST_CRDT + " BSON stage = bson.Marshal/Unmarshal of schema.OperationDoc (what the repository layer stores); values are JSON-representable, strings valid UTF-8.",
             "DESIGN.md §4 C14"),
     "C15": ("exploration", "runtime monitoring: exhaustive bounded grid + random tuples for Hash injectivity and order axioms; identifier monitors on seeded histories",
@@ -48,8 +48,8 @@ CHECKS = {
             TRUST_CRDT + " Grid bounds as stated in the evidence rule; clock differences < 2^62.",
             "DESIGN.md §4 C15"),
     "C19": ("exploration", "runtime monitoring: target-equality oracle on patched replica and on receiving replica, unit check of emitted operations; REST half over the real service",
-            "Chains of seeded (current, target) pairs incl. keys needing JSON-pointer escaping, type changes and array growth/shrink/permutation; the patched document must equal the target, emit one unit, and bring a second replica to the target; invalid JSON must be refused without a trace. REST half: OrdaService.PatchDocument against the stored document: answer, replay of the stored log, server rebuild and every subscribed client must equal the target after each patch of a chain.",
-            TRUST_CRDT + " Targets contain no null. Every fourth case is a REST-half case over the E-svc bed (real service, in-memory MongoDB stand-in): document absent / created / subscribed, patches back to back and interleaved with pushes, with and without stored snapshots.",
+            "Chains of seeded (current, target) pairs incl. keys needing JSON-pointer escaping, type changes and array growth/shrink/permutation; the patched document must equal the target, emit one unit, and bring a second replica to the target (through PatchByJSON and through explicit JSON-patch steps); invalid JSON and unpatchable step lists (also after valid steps) must be refused without a trace. REST half: OrdaService.PatchDocument against the stored document: answer, replay of the stored log, server rebuild and every subscribed client must equal the target after each patch of a chain.",
+            TRUST_CRDT + " Targets contain no null. Every fourth case is a REST-half case over the E-svc bed (real service, in-memory MongoDB stand-in): document absent / created / subscribed, patches back to back and interleaved with pushes, with and without stored snapshots; one case in 200 goes over HTTP through the REST gateway of the repository's own server binary running as a child process.",
             "DESIGN.md §4 C19"),
 }
 
@@ -57,34 +57,34 @@ TRUST_SVC = "Trusted: the harness and its stand-ins (fakemongo = in-memory Mongo
 
 CHECKS.update({
     "C05": ("exploration", "runtime monitoring: convergence / exactly-once / checkpoint-monotonicity monitors over seeded multi-client sync scenarios against the real service",
-            "Seeded scenarios of 1-6 MANUALLY clients, 1-3 datatypes each, all entry modes and late joins drive the real service over the in-memory MongoDB stand-in; after quiescence every subscribed client equals every other, the server's rebuilt copy (snapshot.Manager.GetLatestDatatype) and a replay of the stored log; the remote-operation handlers give exactly-once / log order / never-own; checkpoints never move backwards; store invariants after every request. The thorough tier adds runs through real grpc Connect()/Sync().",
+            "Seeded scenarios of 1-6 MANUALLY clients, 1-3 datatypes each, all entry modes and late joins drive the real service over the in-memory MongoDB stand-in; after quiescence every subscribed client equals every other, the server's rebuilt copy (snapshot.Manager.GetLatestDatatype) and a replay of the stored log; the remote-operation handlers give exactly-once / log order / never-own; checkpoints never move backwards; store invariants after every request; every entry that is legal in the final state must have completed. Scenarios contain committed and aborted transactions; every fourth runs through the SDK's own Client.Sync() over real grpc (several datatypes per message, shuffled response packs, lost responses); a quarter have database reads inside handlers fail now and then (single packs aborted by the server).",
             TRUST_SVC, "DESIGN.md §4 C05"),
     "C06": ("exploration", "runtime monitoring: invariant checker over the stored collections after every request (gapless sseq, _id, end of log, per-client order, exactly-once against the boundary ledger, checkpoints)",
-            "After EVERY request of seeded scenarios (incl. replays of old requests, stale checkpoints, empty pushes, batches of 1-200 operations) the stand-in's collections are read directly and checked per datatype: sseq = 1..n = recorded end of log, _id = duid:sseq, per-client seq 1,2,3,... in sseq order, each stored operation offered exactly once at the boundary, recorded and returned checkpoints covered by what is stored.",
+            "After EVERY request of seeded scenarios (incl. replays of old requests, stale checkpoints, empty pushes, batches of 1-200 operations, read-only syncs of writers and of a dedicated read-only reader) the stand-in's collections are read directly and checked per datatype: sseq = 1..n = recorded end of log, _id = duid:sseq, per-client seq 1,2,3,... in sseq order, each stored operation offered exactly once at the boundary, recorded and returned checkpoints covered by what is stored.",
             TRUST_SVC, "DESIGN.md §4 C06"),
     "C07": ("fault_enumeration", "runtime monitoring under enumerated message faults: the harness is the network (drop response / duplicate request / stale response / retry); exactly-once + convergence + store-invariant oracles after recovery",
-            "Complete enumeration of at most two message faults over the five exchanges of 8 exchange patterns x 3 operation masks (x 2 types in the thorough tier) plus long random faulty histories on all four types; after faults stop and everyone syncs to quiescence every issued operation is stored exactly once, every replica equals the fault-free replay of the stored log, no handler saw an operation twice or an own one.",
+            "Complete enumeration of at most two message faults over the five exchanges of 8 exchange patterns x 3 operation masks (x 2 types in the thorough tier) plus long random faulty histories on all four types (also lost / duplicated entry requests with both responses applied); after faults stop and everyone syncs to quiescence every issued operation is stored exactly once, every replica equals the fault-free replay of the stored log, no handler saw an operation twice or an own one.",
             TRUST_SVC + " Exhaustive only for the stated plan space.", "DESIGN.md §4 C07"),
-    "C08": ("fault_enumeration", "runtime monitoring under enumerated storage faults: fail / sever / sever-after at every database command of every request (profiled from a fault-free run), restart of the service, retry; recovery oracles",
-            "For 4 scenario variants every database command issued while serving each request (incl. those of the background snapshot goroutine) is in turn failed, severed before, and severed after execution; a new service incarnation starts, all clients retry; the faulted call must have been answered with an error (no panic, no hang), acknowledged operations are in the log, store invariants hold, retries reach quiescence and every replica and the server's rebuild equal the fault-free run.",
-            TRUST_SVC + " Server death is approximated in-process (connections severed, service object abandoned; the lock registry survives).", "DESIGN.md §4 C08"),
+    "C08": ("fault_enumeration", "runtime monitoring under enumerated storage faults: fail / sever / sever-after at every database command of every request (profiled from a fault-free run), restart of the service, retry; SIGKILL of a real server child process at database commands; recovery oracles",
+            "For 7 scenario variants (create + subscribers; all subscribe-or-create plus a refused duplicate creator) every database command issued while serving each request (incl. those of the background snapshot goroutine) is in turn failed, severed before, and severed after execution; a new service incarnation starts, all clients retry; the faulted call must have been answered with an error (no panic, no hang), acknowledged operations are in the log, store invariants hold, retries reach quiescence, exactly one datatype document per key exists, and every replica and the server's rebuild agree with the stored log. Process cases: the repository's server binary runs as a child process behind a grpc front, SDK clients call Client.Sync() over real grpc, the process is SIGKILLed at database command k (before / after executing it), a new process starts on the same store and everybody retries; a server process that ends by itself is a violation.",
+            TRUST_SVC + " In the enumerated in-process cases server death is approximated (connections severed, service object abandoned); the process cases kill a real process. Injected command failures use a code the driver does not retry.", "DESIGN.md §4 C08"),
     "C11": ("exploration", "runtime monitoring: offline checker over the stored snapshots, user-collection writes (command log) and rebuilds vs replay of the stored log, with background updates held at database commands to overlap later pushes",
-            "Every stored snapshot (duid, v) restored into a fresh datatype equals replay(1..v); every user-collection write carries _orda_ver_ = v and the JSON view of replay(1..v); written versions per key never decrease; GetLatestDatatype equals the full replay for every position of the latest snapshot; schedules hold a background update at each of its database commands while later pushes commit, run updates back to back, or start them out of order.",
+            "Every stored snapshot (duid, v) restored into a fresh datatype equals replay(1..v); every user-collection write carries _orda_ver_ = v and the JSON view of replay(1..v); written versions per key never decrease (also when the document has a user key named like the version field); GetLatestDatatype equals the full replay for every position of the latest snapshot; schedules hold a background update at each of its database commands while later pushes commit, run updates back to back, or start them out of order.",
             TRUST_SVC + " Keys avoid NUL, '$' and '.'.", "DESIGN.md §4 C11"),
     "C12": ("exploration", "Go race detector + runtime monitors on real parallel executions: critical-section overlap monitor on hook events, porcupine linearizability of the recorded push-pull history against a sequential specification, independence gate, watchdog",
             "2-16 goroutines call the real service at the same instant on shared and distinct keys (own context each, cancelled on return) with injected yields at hook points and database commands; at most one handler per key inside the critical section; the call/return history of every key is linearizable against the push-pull specification (porcupine); requests on other keys return while one key's handler is held; every request returns, also ones abandoned by their client (context cancelled before / during / exactly at lock acquisition), and the key stays usable afterwards; no race report attributed to orda code.",
             TRUST_SVC + " Schedules are those the Go scheduler produced under the injected delays; the evidence counts the distinct critical-section entry orders seen. porcupine timeout = inconclusive.", "DESIGN.md §4 C12"),
     "C13": ("exploration", "runtime monitoring: complete entry-mode matrix with outcome oracle (error handler, state transitions, store diff, single datatype document under races, first state vs replay)",
-            "The complete matrix entry mode x existing datatype x other client (absent / first / racing) x point of history x type (432 cells) is executed with seeded repetitions; illegal entries must reach the error handler with an empty store diff and no transition to SUBSCRIBED, legal ones report SUBSCRIBED exactly once with a first state equal to the replay up to the response checkpoint; racing subscribe-or-create leaves exactly one datatype document.",
+            "The complete matrix entry mode x existing datatype x other client (absent / first / racing) x point of history x type (432 cells) is executed with seeded repetitions; illegal entries must reach the error handler with an empty store diff and no transition to SUBSCRIBED, legal ones report SUBSCRIBED exactly once with a first state equal to the replay up to the response checkpoint; racing subscribe-or-create leaves exactly one datatype document; a first entry attempt aborted by the server (failing database command) must reach the error handler without SUBSCRIBED and the retry is judged like a first entry; an entry response delivered twice and a second open of a held key through the public API change nothing.",
             TRUST_SVC + " The matrix is complete; histories around the cells are seeded samples.", "DESIGN.md §4 C13"),
     "C16": ("exploration", "runtime monitoring: request mutation (hostile requests) with answered/hang/panic watchdog, refused => empty store diff oracle, canary client; client half for error packs",
-            "Valid requests captured from correct clients in every state are mutated in 1-3 fields (ids, keys, types, every option-bit combination, checkpoints, operation lists, client / collection fields) plus ClientMessage / PatchMessage / CollectionMessage variants; every call must be answered, never crash the server, and a refusal must leave the store unchanged; a canary client must still be served afterwards; a panic injected inside a handler goroutine must be answered, survived and must not leave the key locked; clients must survive every error pack and push again after a refused push.",
+            "Valid requests captured from correct clients in every state are mutated in 1-3 fields (ids, keys, types, every option-bit combination, checkpoints, operation lists, client / collection fields) plus ClientMessage / PatchMessage / CollectionMessage / EncodingMessage variants; every call must be answered (a call that returns neither response nor error is not an answer), never crash the server, and a refusal must leave the store unchanged; a canary client must still be served afterwards; a panic injected inside a handler goroutine must be answered, survived and must not leave the key locked; after an ACCEPTED hostile request the structural log invariants of C06 must still hold; a handler fault in one pack of a two-pack message must still be answered with both packs; clients must survive every error pack and push again after a refused push, also through the SDK's own Client.Sync() (lost response, RPC refusal, error pack: the next Sync() must return and succeed).",
             TRUST_SVC, "DESIGN.md §4 C16"),
     "C17": ("exploration", "runtime monitoring: store diff partitioned by owner after every request over several collections in a fresh store; foreign-request and reset oracles",
-            "Seeded histories over 2-3 collections with overlapping keys: every request may touch only documents owned by its own collection and datatype; foreign requests must change and read nothing of the other collection; ResetCollection removes exactly the owner's documents and leaves the rest byte-identical.",
+            "Seeded histories over 2-3 collections with overlapping keys: every request may touch only documents owned by its own collection and datatype; foreign requests must change and read nothing of the other collection; notifications caused by a sync are published on its own collection's topic with that collection's datatype id; ResetCollection removes exactly the owner's documents and leaves the rest byte-identical.",
             TRUST_SVC, "DESIGN.md §4 C17"),
     "C18": ("exploration", "runtime monitoring: publish-log checker (exactly one notification iff operations stored, content) + bounded-progress convergence of REALTIME clients over real grpc/paho under the race detector",
-            "Deterministic part: after every request the broker stand-in's publish log grew by exactly one message {pusher, DUID, new end of log} per datatype that stored operations and by none otherwise. Realtime part: 2-5 REALTIME SDK clients only issue local operations; after logical quiescence all hold equal state with nothing left to push; own notifications trigger no pull.",
+            "Deterministic part: after every request the broker stand-in's publish log grew by exactly one message {pusher, DUID, new end of log} per datatype that stored operations and by none otherwise. Realtime part: 2-5 REALTIME SDK clients only issue local operations; after logical quiescence all hold equal state with nothing left to push, also after epilogues steered by logical events (push in flight + second local operation + delayed earlier notification; later foreign push announced during the flight) and after a notification naming another datatype id on the key's topic; own notifications trigger no pull.",
             TRUST_SVC + " 'Eventually' is decided as bounded progress to logical quiescence (60 s watchdog => inconclusive). Race reports of this workload are advisory (counted, decided under C20).", "DESIGN.md §4 C18"),
     "C20": ("exploration", "Go race detector + runtime monitors on real parallel use of one datatype: conservation, gapless id order, transaction contiguity and isolation, porcupine linearizability of return values, deadlock/panic watchdog",
             "2-8 goroutines issue operations and transactions on one datatype of each type while a background goroutine syncs with the real service and remote operations arrive, with yields injected inside BeginTransaction / unlock; the counter equals the sum of successful deltas, every successful call is queued exactly once in identifier order, transaction units are contiguous and isolated, return values are linearizable, no deadlock / panic, and race reports are classified (mutator paths: violation; unlocked public readers: known finding).",
